@@ -1,6 +1,7 @@
 import A2lVerif.Lemmas.Sort15
 import A2lVerif.Lemmas.Sort15Order
 import A2lVerif.Lemmas.Sort15Iter
+import A2lVerif.Lemmas.Sort15Push
 import A2lVerif.Props.C14
 /-!
 # C15 — sort_new_items(): stable placement over arbitrarily long edit histories
@@ -166,6 +167,25 @@ theorem placed_order_stable_k_calls_partial (k : Nat) (m m' : RModule) (h : iter
 theorem placed_order_stable_ties_partial (m m' : RModule) (h : sortNewItems m = .ok m') (hi : IterInv m) :
     (writeOrder m'.toModule).filter wasPlaced = ((writeOrder m.toModule).filter placed).map dblE :=
   writeOrder_placed_stable_ties h hi.singles (A2l.ListOrder.nodup_of_map_nodup _ hi.keys) hi.ties
+
+/-! ### insertions between the calls -/
+
+/-- **additions without a position do not disturb the placed elements**: if `m'` holds the elements of `m` in the same
+    list order plus elements that are not placed (uid 0: `push` through the API, the elements `merge` moves over with
+    their layout reset), the placed elements are written in the same order as before -/
+theorem additions_keep_placed_order (m m' : Module) (hsub : List.Sublist m.all m'.all)
+    (hperm : (m'.all.filter placed).Perm (m.all.filter placed)) (hnd : m'.all.Nodup) :
+    (writeOrder m').filter placed = (writeOrder m).filter placed :=
+  writeOrder_placed_of_additions m m' hsub hperm hnd
+
+/-- in particular `push` of a new element into any list of the module -/
+theorem push_keeps_placed_order_partial (m : RModule) (i : Nat) (e : Elem) (he : e.uid = 0)
+    (hnd : (pushNew m i e).toModule.all.Nodup) :
+    (writeOrder (pushNew m i e).toModule).filter placed = (writeOrder m.toModule).filter placed :=
+  push_keeps_placed_order m i e he hnd
+
+example (r : RSection) (rs : List RSection) (e : Elem) :
+    pushSec (r :: rs) 0 e = { r with sec := { r.sec with elems := r.sec.elems ++ [e] } } :: rs := rfl
 
 /-- **a new element is written directly behind the last placed element of its kind**: whatever the writer puts between
     the element with uid 2u (the doubled last placed one) and a new element with uid 2u+1 has one of these two uids —
